@@ -123,7 +123,7 @@ def judge(s, mon, sc):
         cls.append("inj")
     zc = "+".join(cls) if cls else "plain"
     # accessor: username() is the normalised registration name
-    if s.user_acc != M.norm(sc["user"]).encode():
+    if M.norm(s.user_acc.decode("utf-8", "replace")) != M.norm(sc["user"]):
         mon.violation("c01:accessor:user", "username() returned %r for %r" % (s.user_acc, sc["user"]), with_draws())
     if not s.srv.ok:
         mon.violation("c01:server_rejects:" + (("z%d" % info["z"]) if attr else "?") + (":neg" if attr and info["neg_base"] else ""),
